@@ -44,7 +44,7 @@ def Etag(name, kids=(), attrs=(), ws=True):
     return ["E", name, ws, [list(a) for a in attrs], list(kids)]
 
 
-LEAVES = [T("s"), T("q\"t'u"), ["N", 7], dep("leafdep"),
+LEAVES = [T("s"), T("q\"t'u"), ["N", 7], T("\u00e9\U0001F600 \u4e2d"), dep("leafdep"),
           ["XJ", dep("xdep")],
           ["XJ", Etag("p", [T("in-x"), dep("xtagdep")])],
           ["XJ", T("xs")],
@@ -60,7 +60,7 @@ RED_LEAVES = [T("s"), dep("leafdep"), ["XJ", Etag("p", [dep("xtagdep")])]]
 
 PROP_NAMES = ["p", "class_", "data_x", "x__"]
 PROP_VALUES = [None, True, False, 3, 2.5, "s", 'q"t', "it's", ["LIST", [1, "a", None]], ["TUP", [1, 2]],
-               {"a": 1, "b": ["LIST", [True]]}, ["JX", "window.fn"],
+               {"a": 1, "b": ["LIST", [True]]}, ["JX", "window.fn"], "window.fn", "\u00e9\U0001F600",
                Etag("em", [T("e"), dep("tagpropdep")], [("id", "i")]),
                J("PropComp", [dep("comppropdep")], [("z", 1)]),
                ["XJ", Etag("u", [dep("xpropdep")])], ["LIST", []], {}, -1, 0, ""]
